@@ -123,7 +123,12 @@ impl Check for C19 {
         });
         let rb = catch_avt(|| {
             let mut b = build(c, rw, t.config.limit);
-            if !rest.is_empty() {
+            // the remainder of the call that carried the reset, delivered the same way
+            if matches!(&t.events[ei], Event::Feed { .. }) {
+                for ch in rest.chars() {
+                    b.feed(ch);
+                }
+            } else if !rest.is_empty() {
                 b.feed_str(&rest);
             }
             b
